@@ -1,0 +1,27 @@
+// Copyright JAMF Software, LLC
+
+//go:build verif
+
+package cmd
+
+import (
+	"context"
+
+	"github.com/jamf/regatta/regattaserver"
+	"go.uber.org/zap"
+	"google.golang.org/grpc"
+)
+
+// Verification-only export shims (build tag verif). They add no behaviour: they make the API server
+// wiring (interceptor chain, TLS configuration taken from viper) and the token check of the command
+// package callable from the external verification harness.
+
+// VerifCreateAPIServer exposes createAPIServer.
+func VerifCreateAPIServer(log *zap.Logger, reg func(grpc.ServiceRegistrar)) (*regattaserver.RegattaServer, error) {
+	return createAPIServer(log, reg)
+}
+
+// VerifAuthFunc exposes authFunc.
+func VerifAuthFunc(token string) func(ctx context.Context) (context.Context, error) {
+	return authFunc(token)
+}
